@@ -77,3 +77,138 @@ CHECKS["C09"] = CodecCheck(
          "families: every call form x input kind on the same bytes (T(x), T.read, T.reads, cs.read x bytes, bytearray, "
          "memoryview, BytesIO, minimal file-like) and histories of consecutive parses on one stream; non-trivial = parse ok",
     quick_n=900, thorough_n=25000, extra=c09_extra, assumptions=DOMAIN)
+
+
+# ---------------------------------------------------------------------------------------------------- C06
+def bitfield_family(rnd, thorough):
+    """Enumerated bit-field definitions: storage type x width sequence x neighbours (rendered from abstract types)."""
+    from harness import absyn as A
+
+    E8 = A.t_enum("EB", "uint8", [("A", 1), ("B", 2)])
+    F16 = A.t_enum("FB", "uint16", [("X", 1), ("Y", 4)], flag=True)
+    storages = [A.t_int(n) for n in ("uint8", "int8", "uint16", "int16", "uint32", "int32", "uint64", "int64", "uint24", "int48")] + \
+               [A.t_char(), E8, F16]
+    neighbours = [None, A.t_int("uint8"), A.t_int("uint32"), A.t_arr(A.t_int("uint8"), A.L_NULL), A.t_leb(False)]
+    out = []
+    for st in storages:
+        total = 8 * A.Storage_size(st)
+        seqs = set()
+        pool = [1, 2, 3, 4, 5, 7, 8, 12, 15, 16, 31, 33, 63, 64]
+        for _ in range(40 if thorough else 6):
+            n = rnd.randrange(1, 6)
+            seqs.add(tuple(rnd.choice([w for w in pool if w <= total]) for _ in range(n)))
+        seqs.add((total,))
+        seqs.add((1, total - 1) if total > 1 else (1,))
+        seqs.add((total, 1))
+        for ws in sorted(seqs):
+            for before in neighbours:
+                for after in (None, A.t_int("uint16")):
+                    fields = []
+                    if before is not None:
+                        fields.append(A.field("pre", before))
+                    fields += [A.field(f"b{i}", st, w) for i, w in enumerate(ws)]
+                    if after is not None:
+                        fields.append(A.field("post", after))
+                    out.append(A.t_struct("BF", fields))
+    return out
+
+
+def c06_extra(rep, rnd, first_id):
+    thorough = rep.tier == "thorough"
+    types = bitfield_family(rnd, thorough)
+    if not thorough:
+        types = rnd.sample(types, 400)
+    out = []
+    for t in types:
+        mode = {"endian": rnd.choice("<>"), "align": rnd.random() < 0.5, "ptr": 8}
+        scn = {"type": t, "mode": mode, "consts": {}, "defs": __import__("harness.absyn", fromlist=["x"]).render(t)}
+        comp = rnd.random() < 0.5
+        out.append(codec.load_record(first_id + len(out), scn, comp))
+        if not out[-1]["loaded"]:
+            continue
+        start = codec.start_for(rnd, scn)
+        for pattern in (b"\xff", b"\x80", None):
+            body = pattern * 40 if pattern else bytes(rnd.randrange(256) for _ in range(40))
+            data = bytes(start) + body
+            out.append(codec.parse_record(first_id + len(out), scn, data, start, comp, both=True))
+    return out
+
+
+CHECKS["C06"] = CodecCheck(
+    "C06", {"value", "dump", "reparse", "layout", "equiv", "load", "pos"},
+    rule="bit-field definitions: enumerated family storage type (13 incl. signed, char, enum, flag, int24/48) x width sequences "
+         "(incl. exactly full, full+1 and straddling ones, which must be rejected) x neighbours (none, scalar, dynamic) x endian x "
+         "alignment x reader, on FF / 80 / random unit contents, plus random definitions with a raised share of bit-field runs; "
+         "non-trivial = a definition with at least one bit-field whose values, dump and layout were compared",
+    quick_n=700, thorough_n=20000, cfg={"w": (0.2, 0.6, 0.75, 0.8, 0.82)}, both=True, extra=c06_extra, assumptions=DOMAIN,
+    mc_models=("MC_Codec", "MC_Bits"),
+    nontrivial=lambda r: ":" in r["defs"].split("{", 1)[-1] and "obs" in r)
+
+
+# ---------------------------------------------------------------------------------------------------- C07
+def c07_extra(rep, rnd, first_id):
+    """Wrong element count in a fixed-size non-character array must be refused (value scenarios)."""
+    from harness import absyn as A
+
+    n = 4000 if rep.tier == "thorough" else 250
+    out = []
+    while len(out) < n:
+        scn = codec.gen_scenario(rnd, {"union": False, "eof": False, "w": (0.2, 0.25, 0.85, 0.9, 0.92)}, top_union=0)
+        t, mode = scn["type"], scn["mode"]
+        try:
+            v = A.gen_value(rnd, t, mode, scn["consts"])
+        except Exception:  # noqa: BLE001
+            continue
+        idx = [i for i, f in enumerate(t["fields"]) if f["type"]["k"] == "arr" and f["type"]["len"]["k"] == "fixed"
+               and f["type"]["elem"]["k"] not in ("char", "wchar") and A.static_size(f["type"], mode) is not None]
+        if not idx:
+            continue
+        i = rnd.choice(idx)
+        items = list(v["vals"][i]["items"])
+        if items and rnd.random() < 0.5:
+            items = items[:-1]
+        else:
+            items = items + [A.gen_value(rnd, t["fields"][i]["type"]["elem"], mode, scn["consts"])]
+        bad = dict(v, vals=v["vals"][:i] + [dict(v["vals"][i], items=items)] + v["vals"][i + 1:])
+        out.append(codec.value_record(first_id + len(out), scn, v, rnd.random() < 0.5))
+        out.append(codec.value_record(first_id + len(out), scn, bad, rnd.random() < 0.5, tag="wrong-count"))
+    return out
+
+
+CHECKS["C07"] = CodecCheck(
+    "C07", {"value", "pos", "status", "dump", "reparse", "reject", "sizes", "load", "equiv"},
+    rule="array-heavy random definitions: element kinds (every scalar, enum, flag, struct, nested array, LEB128, pointer) x the four "
+         "length forms (fixed, expression over earlier fields / constants / sizeof, null-terminated, to end of stream) x both "
+         "readers, multi-dimensional arrays, negative and zero expression values; values with a wrong element count in a "
+         "fixed-size array must be refused; non-trivial = parse ok with at least one array member",
+    quick_n=1500, thorough_n=40000, cfg={"w": (0.2, 0.25, 0.85, 0.9, 0.92)}, both=True, extra=c07_extra, assumptions=DOMAIN,
+    nontrivial=lambda r: "[" in r["defs"] and (r["kind"] == "value" or r["obs"]["res"]["status"] == "ok"))
+
+
+# ---------------------------------------------------------------------------------------------------- C08
+def c08_extra(rep, rnd, first_id):
+    n = 1500 if rep.tier == "thorough" else 90
+    out = []
+    for _ in range(n):
+        scn = codec.gen_scenario(rnd)
+        start = codec.start_for(rnd, scn)
+        data = codec.gen_input(rnd, start, maxlen=70)
+        out += codec.cut_and_fault_records(first_id + len(out), scn, data, start, rnd.random() < 0.5, rnd,
+                                           max_cuts=200 if rep.tier == "thorough" else 48,
+                                           max_faults=60 if rep.tier == "thorough" else 16)
+    return out
+
+
+CHECKS["C08"] = CodecCheck(
+    "C08", {"status", "value", "fabricated", "fault-status", "load"},
+    rule="for every random scenario: EVERY cut point of the input (data[:k], sampled above 48/200 cuts), every single stream fault "
+         "of the clean run (k-th read call delivers 1, 2 or all bytes fewer, or raises) through a faulty stream object, both "
+         "readers, and clean parses after failed ones (no residue); non-trivial = a cut or fault record whose outcome was judged",
+    quick_n=300, thorough_n=8000, extra=c08_extra, assumptions=DOMAIN + [
+        "to-end-of-stream arrays are exempt under stream faults (the end-of-stream probe is what the fault hits)"],
+    mc_models=("MC_Codec", "MC_Cuts"), nontrivial=lambda r: "obs" in r and r.get("tag", "").startswith(("cut", "fault", "after")))
+
+
+from harness.checks_scalar import ScalarCheck  # noqa: E402
+
+CHECKS["C05"] = ScalarCheck()
